@@ -107,6 +107,9 @@ reg = {
         "repair": {"overlay": "units/repair.ovl", "canaries": ["canary_repair"],
                    "helpers": ["from", "new", "aborted", "clone", "used_two_phase_commit", "repair_primary_corrupted", "clear_read_cache",
                                "clear_recovery_required", "verify_primary_checksums", "rebuild_allocator_state"]},
+        # begin_write over models of its callees
+        "beginwrite": {"overlay": "units/beginwrite.ovl", "canaries": ["canary_beginwrite"],
+                       "helpers": ["from", "start_write_transaction", "new_write", "new", "check_io_errors", "allocator_state_loaded"]},
         "types_sep": {"overlay": "units/types_sep.ovl", "canaries": ["canary_types_sep"], "helpers": ["common_prefix_len"]},
         # the page-level checksum walk over an abstract page store
         "merkle": {"overlay": "units/merkle.ovl", "canaries": ["canary_merkle"],
@@ -195,11 +198,12 @@ P["C08"] = {
     "level": "proof",
     "kani": [alias("C20-L1", "C08-K1"), alias("C20-L2a", "C08-K2")],
     "verus": [{"unit": "alloc", "functions": ["TransactionalMemory::commit", "TransactionalMemory::non_durable_commit", "Mutex::lock", "drop"]},
-              {"unit": "wbuf", "functions": ["PagedCachedFile::flush_lowest_priority", "PagedCachedFile::lemma_evict_step"]}],
+              {"unit": "wbuf", "functions": ["PagedCachedFile::flush_lowest_priority", "PagedCachedFile::lemma_evict_step"]},
+              {"unit": "beginwrite", "functions": ["begin_write_with_allocation_policy"]}],
     "assumptions": ["W1 (wbuf unit): a stripe of the write buffer is the map offset -> page it holds (pop_lowest_priority removes and returns some entry or nothing, insert adds one), the backend is the log of the writes it accepted (a failing write or write_best_effort adds nothing); sizes: at most 2^28 pages of at most 2^28 bytes per stripe, 64-bit usize",
                     "T9 (storage model of the alloc unit): every fallible PagedCachedFile entry point is refused without reaching the storage once the latch is set, sets the latch when it fails, and check_io_errors() reports exactly the latch - the latch itself is what the Kani harnesses C08-K1/K2 prove on the real CheckedBackend"],
-    "explanation": "Kernel: once any backend call has failed every later len/read/set_len/sync_data/write is refused without reaching the backend (one symbolic step from an arbitrary latch state = induction over call sequences of any length); (V) the REAL TransactionalMemory::commit and non_durable_commit consult the latch before anything else: with the latch set they return Err and change nothing (no event reaches the storage, no header is published, the unpersisted set is untouched), and non_durable_commit acknowledges (Ok) exactly when the latch is clear; (W) the REAL eviction loop of the write buffer (PagedCachedFile::flush_lowest_priority, both Required and BestEffort write-back): a buffered page leaves the write buffer only after the backend accepted exactly it, the pages still buffered are unchanged, nothing else reaches the backend, and when a write fails the page is back in the buffer and the error is returned - never swallowed; write_best_effort neither sets nor bypasses the latch; PreviousIo vs DatabaseClosed by the closed flag; after close() nothing reaches the backend.",
-    "not_decided": "every failure index in every history; what begin_write / shutdown / WriteTransaction::commit_inner do with the latch; state after reopen; that callers above TransactionalMemory consult the latch",
+    "explanation": "Kernel: once any backend call has failed every later len/read/set_len/sync_data/write is refused without reaching the backend (one symbolic step from an arbitrary latch state = induction over call sequences of any length); (V) the REAL TransactionalMemory::commit and non_durable_commit consult the latch before anything else: with the latch set they return Err and change nothing (no event reaches the storage, no header is published, the unpersisted set is untouched), and non_durable_commit acknowledges (Ok) exactly when the latch is clear; (B) the REAL begin_write_with_allocation_policy (behind Database::begin_write) hands out no write transaction once an I/O failure was seen, nor on top of an allocator state discarded by a failed commit or integrity check (Corrupted); (W) the REAL eviction loop of the write buffer (PagedCachedFile::flush_lowest_priority, both Required and BestEffort write-back): a buffered page leaves the write buffer only after the backend accepted exactly it, the pages still buffered are unchanged, nothing else reaches the backend, and when a write fails the page is back in the buffer and the error is returned - never swallowed; write_best_effort neither sets nor bypasses the latch; PreviousIo vs DatabaseClosed by the closed flag; after close() nothing reaches the backend.",
+    "not_decided": "every failure index in every history; that begin_write re-checks the latch AFTER acquiring the write slot (one-thread model), what shutdown / WriteTransaction::commit_inner do with the latch; state after reopen; that callers above TransactionalMemory consult the latch",
 }
 P["C01"] = {
     "level": "proof",
@@ -283,7 +287,8 @@ P["C11"] = {
                                               "Allocators::resize_to", "Allocators::lemma_*", "DatabaseLayout::recalculate", "DatabaseHeader::layout", "DatabaseHeader::set_layout",
                                               "TransactionalMemory::mark_page_allocated", "TransactionalMemory::reset_allocator_state", "TransactionalMemory::check_page_order",
                                               "InMemoryState::get_region_mut", "Mutex::lock"]},
-              {"unit": "txcommit", "functions": ["WriteTransaction::abort_inner"]}],
+              {"unit": "txcommit", "functions": ["WriteTransaction::abort_inner"]},
+              {"unit": "beginwrite", "functions": ["begin_write_with_allocation_policy"]}],
     "kani": [K["C11-R3"]],
     "explanation": "Kernel: rebuild = reset + one mark per reachable page. The REAL TransactionalMemory::reset_allocator_state leaves an allocator state that matches the header's layout with EVERY page free (Allocators::new, BuddyAllocator::new: greedy decomposition, lemma_greedy_all_free); the REAL TransactionalMemory::mark_page_allocated accepts a page number only if it names a block inside an existing region of the layout that was entirely free, then exactly its pages stop being free, every other region is untouched and the state stays consistent with the header; a refused page number (order > 20, region or block out of range, overlap with an allocated page) changes no allocator; the REAL WriteTransaction::abort_inner keeps the repair latch set when the rollback fails part way (its pages stay allocated, so the allocator state is never persisted as clean) and restores it after a complete rollback. record_alloc marks exactly the named block (true iff the block lay inside a free block, which it then no longer does, every other page keeps its state) or refuses with the allocator unchanged, I1 and I2 preserved; (R4) Allocators::resize_to - the reconciliation of a loaded allocator state with the layout of the file being opened - gives every region the size the layout says, keeps wf and TRK, marks dropped regions full and leaves unchanged regions untouched (BuddyAllocator::resize verified; only highest_free_order assumed); the allocator-state key codec orders Region(i) by i and before the tracker and the transaction id, which the snapshot loader's range scans rely on.",
     "not_decided": "which pages ARE reachable; is_valid_allocator_state's staleness comparison (needs a B-tree); histories and crash points; the tracker's persistent-savepoint pins rebuilt at open (register_persistent_savepoint: one pin per savepoint, also when several savepoints share a transaction) only BOUNDED (native C11-X-pins3)",
